@@ -74,6 +74,23 @@ package coreblock
 //@ func determineBlockEncryption -> (enc, link, err)
 //@   assert before call#1 putBlock: arg1 == res(Encstore, 1, 0)
 //@   tags C11
+//@ // without a new request the encryption is inherited: from the CRDT's own previous blocks, and for a field
+//@ // that has none (first set by an update) from the document's composite when the whole document is encrypted
+//@ extern immutable.Option[string].HasValue(o) -> (b)
+//@   pure
+//@ func determineBlockEncryption
+//@   assert before call#1 inheritBlockEncryption: sameslice(arg1, heads) && !arg2
+//@   assert before call#2 inheritBlockEncryption: sameslice(arg1, res(List, 1, 0)) && arg2 && res(inheritBlockEncryption, 1, 0) == nil && res(inheritBlockEncryption, 1, 2) == nil && res(List, 1, 2) == nil
+//@   assert before call#1 NewHeadSet: as(arg1, keys.HeadstoreDocKey).DocID == docID && as(arg1, keys.HeadstoreDocKey).FieldID == core.COMPOSITE_NAMESPACE && arg0 == res(Headstore, 1, 0)
+//@   ensures err == nil && enc == nil && called(inheritBlockEncryption, 1) && res(Option[string].HasValue, 1, 0) && docID != "" ==> called(inheritBlockEncryption, 2)
+//@   tags C11
+//@ // every candidate block is examined; the first encrypted one decides (document-level only when asked)
+//@ func inheritBlockEncryption -> (enc, link, err)
+//@   ensures err == nil && enc == nil ==> exhausted(1)
+//@   assert before call#1 GetEncryptionBlockFromBytes: sameslice(arg0, res(Get, 2, 0)) && res(Get, 2, 1) == nil
+//@   ensures err == nil && enc != nil ==> sameslice(enc.Key, res(GetEncryptionBlockFromBytes, 1, 0).Key) && (docLevelOnly ==> res(GetEncryptionBlockFromBytes, 1, 0).FieldName == nil)
+//@   tags C11
+//@ apply ErrFlow: inheritBlockEncryption
 //@
 //@ // ===== C12: the bytes signed are the marshalled block without signature link; verification checks
 //@ // exactly those bytes against the key named by the signature block
